@@ -9,36 +9,59 @@ use serde::{Deserialize, Serialize};
 pub struct MomentData {
     scale: f32,
     offset: f32,
+    data_word_size: u8,
     values: Vec<u8>,
 }
 
 impl MomentData {
-    /// Create new moment data from fixed-point encoding.
+    /// Create new moment data from fixed-point encoding with one byte per gate.
     pub fn from_fixed_point(scale: f32, offset: f32, values: Vec<u8>) -> Self {
+        Self::from_fixed_point_with_word_size(scale, offset, 8, values)
+    }
+
+    /// Create new moment data from fixed-point encoding whose gates are `data_word_size` bits wide:
+    /// 8 for one byte per gate, 16 for one big-endian byte pair per gate.
+    pub fn from_fixed_point_with_word_size(
+        scale: f32,
+        offset: f32,
+        data_word_size: u8,
+        values: Vec<u8>,
+    ) -> Self {
         Self {
             scale,
             offset,
+            data_word_size,
             values,
         }
     }
 
     /// Values from this data moment corresponding to gates in the radial.
     pub fn values(&self) -> Vec<MomentValue> {
-        let copied_values = self.values.iter().copied();
-
-        if self.scale == 0.0 {
-            return copied_values
-                .map(|raw_value| MomentValue::Value(raw_value as f32))
+        if self.data_word_size == 16 {
+            return self
+                .values
+                .chunks_exact(2)
+                .map(|word| self.value_of(u16::from_be_bytes([word[0], word[1]])))
                 .collect();
         }
 
-        copied_values
-            .map(|raw_value| match raw_value {
-                0 => MomentValue::BelowThreshold,
-                1 => MomentValue::RangeFolded,
-                _ => MomentValue::Value((raw_value as f32 - self.offset) / self.scale),
-            })
+        self.values
+            .iter()
+            .map(|&raw_value| self.value_of(raw_value as u16))
             .collect()
+    }
+
+    /// The value of a single gate given its raw fixed-point encoding.
+    fn value_of(&self, raw_value: u16) -> MomentValue {
+        if self.scale == 0.0 {
+            return MomentValue::Value(raw_value as f32);
+        }
+
+        match raw_value {
+            0 => MomentValue::BelowThreshold,
+            1 => MomentValue::RangeFolded,
+            _ => MomentValue::Value((raw_value as f32 - self.offset) / self.scale),
+        }
     }
 }
 
